@@ -119,6 +119,13 @@ def check(case, ctx):
     eps = [x + 0.0 for x in case["eps"]]
     ctx.nontrivial(S.is_oblique(cell) and not S.rot_is_axis(U) and any(eps))
     # ---- cell / matrices
+    if case["hkl"][0] % 2 == 0:
+        # an earlier caller obtained the same matrices and overwrote them in place (its own copies, it thought)
+        from vlib import harness as _h
+        for fn in ("form_b_mat", "form_a_mat", "form_a_mat_inv", "cell_invert"):
+            _h.scribble(getattr(T, fn)(cell))
+            _h.scribble(getattr(L, fn)(cell))
+        ctx.event("earlier-results-overwritten-by-their-caller")
     _cmp(ctx, "cell_invert", T.cell_invert(cell), L.cell_invert(cell))
     _cmp(ctx, "cell_volume", T.cell_volume(cell), L.cell_volume(cell))
     Bt, Bl = np.asarray(T.form_b_mat(cell), float), np.asarray(L.form_b_mat(cell), float)
@@ -267,6 +274,20 @@ def check(case, ctx):
             b = np.asarray(L.genhkl(B.cell, g_.syscond, 0.0, min(B.smax, 0.2), g_.crystal_system, output_stl=ostl), float)
             if a.shape != b.shape or not np.array_equal(a, b):
                 ctx.fail("differs/genhkl", "genhkl(output_stl=%r): tools returns shape %r, laue %r (or different values)" % (ostl, a.shape, b.shape))
+        if B.kw.get("sgno") is not None or "sgname" in B.kw:
+            # both identifiers given (a redundant but consistent pair): whatever the precedence, both modules must agree
+            kw2 = dict(B.kw)
+            if "sgname" in kw2:
+                kw2["sgno"] = g_.no
+            else:
+                kw2["sgname"] = g_.name if g_.cell_choice != "rhombohedral" else (g_.name if g_.name.lower().endswith("r") else g_.name + "r")
+            for fn in ("genhkl_unique", "genhkl_all"):
+                np.random.seed(hk["npseed"])
+                a = np.asarray(getattr(T, fn)(B.cell, B.smin, B.smax, **kw2), float)
+                np.random.seed(hk["npseed"])
+                b = np.asarray(getattr(L, fn)(B.cell, B.smin, B.smax, **kw2), float)
+                if a.shape != b.shape or not np.array_equal(a, b):
+                    ctx.fail("differs/" + fn, "%s with both sgname and sgno given (%r): tools returns shape %r, laue %r (or different values)" % (fn, kw2, a.shape, b.shape))
         for fn in (("genhkl_unique", "genhkl_all") if hk["npseed"] % 3 == 1 else ()):
             for ostl in (False, True):
                 np.random.seed(hk["npseed"])
